@@ -398,6 +398,10 @@ func fixedWorkloadTexts() []string {
 		"[upper(salt), lpad(salt, 'x', 14), replace(salt, 'g', 'G'), toFloat(salt), toString(saltn), timeFormat(t, salt), left(salt, 2) + right(salt, 2), find(salt, 'i'), len(salt)]",
 		"[saltn * 1.5, saltn % 7, round(saltn / 3), roundBank(saltn / 2), max(saltn, 10), sqrt(saltn), exp(saltn / 1000), ln(saltn + 1), date(2000 + saltn % 50, saltn % 12 + 1, 1), toInt(saltn / 7)]",
 		"$v = saltn + 1, [$v, salt + $v, typeof salt, fnA(salt), fnSV(salt, saltn, $v), useTimezone(t, saltn % 2 == 0 ? 'UTC' : 'Asia/Kolkata')]",
+		// deep trees: a 150-term sum, 40 nested calls, a 60-step conditional ladder (many evaluator frames in flight at once)
+		"i" + strings.Repeat(" + f64 + 1", 75),
+		strings.Repeat("abs(", 40) + "0 - saltn" + strings.Repeat(")", 40),
+		strings.Repeat("i > 100 ? 0 : ", 60) + "saltn",
 	}
 }
 
